@@ -6,7 +6,7 @@ PROP = dict(
     trusted=["Go sync.Mutex / sync.Map are atomic per operation", "cache/lru/list.go (container/list copy) behaves as a sequence"],
     assumptions=["values' Size() is deterministic unless poisoned by the harness",
                  "the uint64 counter is modelled in Nat; absence of wrap-around is part of the proved invariant"],
-    level="Kernel-checked theorems about an executable Lean model of cache/lru (index + recency list + byte counter): the coherence invariant holds in every reachable state for every operation sequence and capacity (C16_state_invariant), the model refines a plain recency-ordered association list (C16_refines_spec, C16_lru_order, C16_get_after_put/_del), and for every interleaving of any number of threads the mutex serialises calls (C16_linearizable via LockObj.lock_serializes). The model is tied to /repo on every run by regenerated source facts (all shared accesses inside the critical section: C16_source_shape is re-proved against Gen/Lru.lean) and by a differential run of the real cache against model and spec on random sequential histories, exhaustively enumerated 2-3 thread schedules through the verif yield hooks, random longer schedules and free-running goroutines.",
+    level="Kernel-checked theorems about an executable Lean model of cache/lru (index + recency list + byte counter): the coherence invariant holds in every reachable state for every operation sequence and capacity (C16_state_invariant), the model refines a plain recency-ordered association list (C16_refines_spec, C16_lru_order, C16_get_after_put/_del), and for every interleaving of any number of threads the mutex serialises calls (C16_linearizable via LockObj.lock_serializes). The model is tied to /repo on every run by regenerated source facts (all shared accesses inside the critical section: C16_source_shape is re-proved against Gen/Lru.lean) and by a differential run of the real cache against model and spec on random sequential histories, exhaustively enumerated 2-3 thread schedules through the verif yield hooks, random longer schedules and free-running goroutines (the whole synchronised API incl. Range/Len/Size, in a child process so that a fatal runtime error is an observation). The driver also evaluates step clauses on the implementation's own observations around every sequential operation (obsClause); C16_oracle_sound proves that no step of the abstract cache from a reachable state violates them.",
     ref="DESIGN.md section 7 C16",
     note="Trusted: Lean kernel + propext/Classical.choice/Quot.sound; extractor (syntactic lock-region facts); harness agreement on generated histories; sync.Mutex/sync.Map atomicity; the interleaving theorem treats the critical section as an arbitrary sequence of micro-steps under the lock, it does not model the Go memory model.",
     technique="Lean 4 proof (invariant induction + refinement + lock-serialisation theorem) with regenerated source facts and differential correspondence",
